@@ -413,19 +413,47 @@ func runC10(c *Ctx) {
 						}
 					}
 				}
-				c.Oracle(n, ok, why)
-				c.Stat("req_" + kind)
 				if h, isH := resp.handle(); err == nil && isH {
+					// the handle serves the access the OPEN asked for: a handle opened with READ answers a READ (data or EOF) whenever
+					// the handlers can provide a reader for that open (no write-ish flag, or an OpenFileWriter), one opened with WRITE
+					// takes a WRITE
+					if kind == "open" && ok {
+						pf := uint32(p.N1)
+						writeish := pf&(2|4|8|16) != 0
+						if pf&1 != 0 && (!writeish || i.openfile) {
+							if r2, e2 := rs.do(rawRead(7, h, 0, 1)); e2 != nil {
+								ok, why = false, "open-access: READ on a handle opened with READ was not answered"
+							} else if code, isStatus := r2.statusCode(); isStatus && code != 1 {
+								ok, why = false, fmt.Sprintf("open-access: READ on a handle opened with pflags %x (READ set) was refused with status %d", pf, code)
+							}
+						}
+						if pf&2 != 0 {
+							if r2, e2 := rs.do(rawWrite(8, h, 0, []byte("x"))); e2 != nil {
+								ok, why = false, "open-access: WRITE on a handle opened with WRITE was not answered"
+							} else if code, isStatus := r2.statusCode(); !isStatus || code != 0 {
+								ok, why = false, fmt.Sprintf("open-access: WRITE on a handle opened with pflags %x (WRITE set) was refused with status %d", pf, code)
+							}
+						}
+					}
 					rs.do(rawHandleOp(fxpClose, 9, h))
 					rec.take()
 				}
+				c.Oracle(n, ok, why)
+				c.Stat("req_" + kind)
 			}
 			for pi, p := range paths {
 				if !c.Thorough() && (pi+ii)%2 != 0 && pi > 3 {
 					continue
 				}
 				q := paths[(pi+3)%len(paths)]
-				for _, pf := range []uint32{1, 2, 3, 0x1a, 0x0b, 4, 0} {
+				pfs := []uint32{1, 2, 3, 0x1a, 0x0b, 4, 0}
+				if pi < 2 { // every combination of the six open flags on the first two paths (which handler, which method)
+					pfs = nil
+					for pf := uint32(0); pf < 64; pf++ {
+						pfs = append(pfs, pf)
+					}
+				}
+				for _, pf := range pfs {
 					blk := attrBlock(4, 0, 0, 0, 0o640, 0, 0)
 					send("open", &sftp.VerifPacket{Kind: "open", ID: id + 1, S1: p, N1: uint64(pf), N2: 4, HasRaw: true, Raw: blk}, rawOpen(id+1, p, pf, 4, blk))
 				}
